@@ -419,6 +419,11 @@ fn extreme_feed_value(sim: &mut Sim, ctx: &mut Ctx, b: &VenueBank) {
                 1 => i64::MAX / 2 + ctx.rng.range(0, 1_000_000) as i64,
                 _ => i64::MAX / ctx.rng.range(3, 1000) as i64,
             };
+            // as for the Switchboard values above: stay a clear 1e-6 .. 1e-3 (relative) away from
+            // mantissas whose product with an exchange rate of 1 + epsilon (or 2, 3, ...) lands
+            // inside the truncation band of the adjustment around i64::MAX, where either verdict
+            // (priced / overflow reported) is right and the reference cannot tell which one is due
+            let m = m - (m / 1_000_000) * ctx.rng.range(1, 1000) as i64;
             Event::SetAccount {
                 key: feed,
                 account: Some(fixtures::pyth_account(
